@@ -133,6 +133,7 @@ class ClassInfo:
         if cached is not None:
             return cached
         out: dict[str, ast.AST] = {}
+        inferred: dict[str, ast.AST] = {}
         for c in self.mro():
             for m in c.methods.values():
                 for n in ast.walk(m.node):
@@ -143,8 +144,25 @@ class ClassInfo:
                         and n.target.value.id == "self"
                     ):
                         out.setdefault(n.target.attr, n.annotation)
+                    elif (
+                        isinstance(n, ast.Assign)
+                        and len(n.targets) == 1
+                        and isinstance(n.targets[0], ast.Attribute)
+                        and isinstance(n.targets[0].value, ast.Name)
+                        and n.targets[0].value.id == "self"
+                    ):
+                        v = n.value
+                        # self.x = ClassName(...)  /  self.x = <annotated parameter>
+                        if isinstance(v, ast.Call) and isinstance(v.func, ast.Name) and v.func.id[:1].isupper():
+                            inferred.setdefault(n.targets[0].attr, ast.Name(id=v.func.id, ctx=ast.Load()))
+                        elif isinstance(v, ast.Name):
+                            for a in m.node.args.args + m.node.args.kwonlyargs:  # type: ignore[attr-defined]
+                                if a.arg == v.id and a.annotation is not None:
+                                    inferred.setdefault(n.targets[0].attr, a.annotation)
             for k, v in c.class_ann.items():
                 out.setdefault(k, v)
+        for k, v in inferred.items():
+            out.setdefault(k, v)
         object.__setattr__(self, "_iaa", out)
         return out
 
